@@ -82,7 +82,8 @@ def run(ctx):
     h = ctx.fn(hclos[0])
     hev = W.ev(h.path)
     calls = [(bb, strip_generics(t["fn"].get("path", ""))) for bb, t in h.calls()]
-    stores = [(bb, p) for bb, p in calls if p.endswith("::store") and "atomic" in p]
+    # store(false), swap(false) and fetch_and(false) all leave the flag false
+    stores = [(bb, p) for bb, p in calls if (p.endswith("::store") or p.endswith("::swap") or p.endswith("::fetch_and")) and "atomic" in p]
     # ctrlc runs the handler on a thread of its own (not in signal context): logging there is harmless.  What matters is that the store happens
     # on every path and that nothing before or around it can block, terminate the process abruptly or panic.
     good = []
